@@ -5,6 +5,7 @@
 package trzsz
 
 import (
+	"syscall"
 	"fmt"
 	"os"
 	"path/filepath"
@@ -27,6 +28,10 @@ type vfC01Case struct {
 	// AlsoSub: in directory mode, a sub-directory of the first path is named on the command line as well ("tsz -d proj proj/sub"):
 	// it arrives twice, inside the first tree and as a top-level entry of its own
 	AlsoSub bool `json:"also_sub,omitempty"`
+	// StallSaveMs > 0: the one destination file sits on a medium that stops taking data for that long once the first bytes are
+	// written (here: a FIFO whose reader pauses) - the save stage stands still for longer than the timeout while the data has
+	// arrived and been acknowledged. The receiver is alive and says so (it repeats its acknowledgement): the transfer must succeed.
+	StallSaveMs int `json:"stall_save_ms,omitempty"`
 }
 
 func (p vfTopPath) base() string { return p.Tree.Files[0].Rel[0] }
@@ -78,6 +83,7 @@ type vfC01Res struct {
 	intact  int
 	msgs    int
 	alsoSub bool
+	stalled bool
 }
 
 func vfC01Run(cs vfC01Case, res *vfC01Res) string {
@@ -129,7 +135,17 @@ func vfC01Run(cs vfC01Case, res *vfC01Res) string {
 	}
 	vfCurCase("TestVF_C01", cs)
 	r := vfNewPair(cs.Cfg)
+	var slow *vfSlowMedium
+	if cs.StallSaveMs > 0 && len(names) == 1 {
+		var err error
+		if slow, err = vfNewSlowMedium(filepath.Join(dest, names[0]), time.Duration(cs.StallSaveMs)*time.Millisecond); err != nil {
+			return "fifo: " + err.Error()
+		}
+	}
 	r.run(paths, dest, 120*time.Second)
+	if slow != nil {
+		res.stalled = slow.finish() // the FIFO becomes a regular file holding what was written into it
+	}
 	res.msgs = len(r.c2s.messages()) + len(r.s2c.messages())
 	// (2) fault-free and cooperative: both sides must report success
 	if r.hung {
@@ -324,6 +340,18 @@ func vfGenC01(rt *rapid.T) vfC01Case {
 		}
 		cs.Cfg.SegC2S, cs.Cfg.SegS2C = vfSeg{}, vfSeg{}
 	}
+	if rapid.IntRange(0, 29).Draw(rt, "slow_saver") == 0 {
+		// one file larger than a pipe buffer but small enough for the receiver's queues, -y at protocol 2 (the existing "file" is
+		// truncated and rewritten, never read), a short timeout, a medium that pauses for longer than that
+		cs.Paths = cs.Paths[:1]
+		cs.Paths[0].Tree.Files = []vfFile{{Rel: []string{cs.Paths[0].base()}, Size: rapid.Int64Range(100000, 200000).Draw(rt, "stall_size"),
+			Kind: rapid.SampledFrom([]int{vfKindNoise, vfKindText}).Draw(rt, "stall_kind"), Seed: 5}}
+		cs.AlsoSub, cs.Pre = false, 0
+		cs.Cfg.Overwrite, cs.Cfg.Protocol, cs.Cfg.Timeout = true, 2, 2
+		cs.Cfg.Bufsize = rapid.SampledFrom([]int64{0, 65536, 1048576}).Draw(rt, "stall_bufsize")
+		cs.Cfg.SegC2S, cs.Cfg.SegS2C = vfSeg{}, vfSeg{}
+		cs.StallSaveMs = 3300
+	}
 	// duplicate base names with -y are refused by design
 	if cs.Cfg.Overwrite {
 		seen := map[string]bool{}
@@ -407,7 +435,72 @@ func TestVF_C01(t *testing.T) {
 		if res.alsoSub {
 			labels = append(labels, "sub_directory_also_named_by_itself")
 		}
+		if res.stalled {
+			labels = append(labels, "save_stage_stalled_beyond_the_timeout")
+		}
 		c.eval(cs, res.intact > 0 && res.bytes > 0 && nondefault, labels...)
 		return msg
 	})
+}
+
+
+// vfSlowMedium stands in for a destination that stops taking data for a while: a FIFO at the destination path whose reader takes
+// the first bytes, pauses, and then takes the rest. finish turns it into a regular file with everything that was written.
+type vfSlowMedium struct {
+	path  string
+	f     *os.File
+	stop  chan struct{}
+	done  chan struct{}
+	data  []byte
+	stall time.Duration
+	hit   bool
+}
+
+func vfNewSlowMedium(path string, stall time.Duration) (*vfSlowMedium, error) {
+	if err := syscall.Mkfifo(path, 0644); err != nil {
+		return nil, err
+	}
+	fd, err := syscall.Open(path, syscall.O_RDWR|syscall.O_NONBLOCK, 0)
+	if err != nil {
+		return nil, err
+	}
+	m := &vfSlowMedium{path: path, f: os.NewFile(uintptr(fd), path), stop: make(chan struct{}), done: make(chan struct{}), stall: stall}
+	go func() {
+		defer close(m.done)
+		buf := make([]byte, 32*1024)
+		stopping := false
+		for {
+			_ = m.f.SetReadDeadline(time.Now().Add(100 * time.Millisecond))
+			n, err := m.f.Read(buf)
+			if n > 0 {
+				m.data = append(m.data, buf[:n]...)
+				if !m.hit {
+					m.hit = true
+					time.Sleep(m.stall)
+				}
+				continue
+			}
+			if err != nil && !os.IsTimeout(err) {
+				return
+			}
+			if stopping {
+				return // nothing came for 100 ms after the transfer had ended
+			}
+			select {
+			case <-m.stop:
+				stopping = true
+			default:
+			}
+		}
+	}()
+	return m, nil
+}
+
+func (m *vfSlowMedium) finish() bool {
+	close(m.stop)
+	<-m.done
+	m.f.Close()
+	os.Remove(m.path)
+	_ = os.WriteFile(m.path, m.data, 0644)
+	return m.hit
 }
